@@ -5,6 +5,7 @@ import (
 	"crypto/sha256"
 	"encoding/hex"
 	"fmt"
+	"io"
 	"os"
 	"os/exec"
 	"path/filepath"
@@ -44,9 +45,12 @@ func permutations(n int) [][]int {
 
 var c19Perms = permutations(5)
 
+// c19TabOption is one option value used by every case of the process
+var c19TabOption = astisub.WriteToTTMLWithIndentOption("\t")
+
 // c19Hashes writes the list built from (seed) with every writer and returns "name=hash" per writer (errors included)
 func c19Hashes(seed uint64) []string {
-	s := richSubtitles(fw.NewRand(seed))
+	s := c19List(seed)
 	if s.Metadata != nil && seed%2 == 0 {
 		// every language the library has a code for comes up in the lists compared across processes (a table built
 		// at start-up in an order of its own would give another code in another process)
@@ -60,9 +64,39 @@ func c19Hashes(seed uint64) []string {
 	return out
 }
 
+// c19List is the list of a seed. Round 13: in every third list one style alone carries style-sheet lines, they end
+// in blanks or tabs and their slice has room to spare (a writer that tidies such lines must do so on a copy)
+func c19List(seed uint64) *astisub.Subtitles {
+	s := richSubtitles(fw.NewRand(seed))
+	if seed%3 != 0 {
+		return s
+	}
+	first := ""
+	for id, st := range s.Styles {
+		if st != nil && st.InlineStyle != nil && len(st.InlineStyle.WebVTTStyles) > 0 && (first == "" || id < first) {
+			first = id
+		}
+	}
+	for id, st := range s.Styles {
+		if st == nil || st.InlineStyle == nil || len(st.InlineStyle.WebVTTStyles) == 0 {
+			continue
+		}
+		if id != first {
+			st.InlineStyle.WebVTTStyles = nil
+			continue
+		}
+		lines := make([]string, 0, 8)
+		for k, l := range st.InlineStyle.WebVTTStyles {
+			lines = append(lines, l+[]string{" ", "\t", "  "}[k%3])
+		}
+		st.InlineStyle.WebVTTStyles = lines
+	}
+	return s
+}
+
 func c19Run(c *fw.Ctx) fw.Outcome {
 	seed := c.R.U64()
-	s := richSubtitles(fw.NewRand(seed))
+	s := c19List(seed)
 	key := fw.Mix(seed, 0xc19)
 	desc := fmt.Sprintf("list seed=%d: %d cues, %d styles, %d regions, metadata=%v", seed, len(s.Items), len(s.Styles), len(s.Regions), s.Metadata != nil)
 	before := deepDump(s)
@@ -99,7 +133,7 @@ func c19Run(c *fw.Ctx) fw.Outcome {
 		perms = c19Perms[start : start+24]
 	}
 	for _, perm := range perms {
-		s2 := richSubtitles(fw.NewRand(seed))
+		s2 := c19List(seed)
 		for _, wi := range perm {
 			w := allWriters[wi]
 			b, err, p := writeBytes(w, s2)
@@ -125,6 +159,13 @@ func c19Run(c *fw.Ctx) fw.Outcome {
 		var b1, b2 bytes.Buffer
 		e1 := s.WriteToTTML(&b1, astisub.WriteToTTMLWithIndentOption(ind))
 		e2 := s.WriteToTTML(&b2, astisub.WriteToTTMLWithIndentOption(ind))
+		if ind == "\t" {
+			// round 13: an option value is not a document - one that has been used before, behind another option,
+			// means what a new one means
+			s.WriteToTTML(io.Discard, astisub.WriteToTTMLWithIndentOption("  "), c19TabOption)
+			b2.Reset()
+			e2 = s.WriteToTTML(&b2, c19TabOption)
+		}
 		if !bytes.Equal(b1.Bytes(), b2.Bytes()) || (e1 != nil) != (e2 != nil) {
 			return fw.Bad(key, desc, "ttml writer with indentation %q: two writes of the same list differ ({%s}): %s", ind, desc, firstDiff(b1.String(), b2.String()))
 		}
@@ -186,7 +227,7 @@ func c19Run(c *fw.Ctx) fw.Outcome {
 			}
 		}
 	}
-	fresh := richSubtitles(fw.NewRand(seed))
+	fresh := c19List(seed)
 	c19Edit(s)
 	c19Edit(fresh)
 	for _, w := range allWriters {
@@ -197,7 +238,7 @@ func c19Run(c *fw.Ctx) fw.Outcome {
 		}
 	}
 	c.Count("rewrites_after_an_edit_in_place", int64(len(allWriters)))
-	s = richSubtitles(fw.NewRand(seed)) // (the clock step below works on the unedited list)
+	s = c19List(seed) // (the clock step below works on the unedited list)
 	// (e) the injectable clock: only STL may depend on it, and only when the metadata lacks a date, and only in the
 	// creation/revision date bytes of the GSI block
 	defer func() { astisub.Now = func() time.Time { return fixedNow } }()
